@@ -57,6 +57,15 @@ def cases(tier, seed):
         for vs in itertools.product(["ok", "block"], repeat=m * 3):
             i += 1
             yield dict(_mk("v2", "v2", m, 3, vs, "o%d" % i), id=i)
+    # the LLM's whole answer spells a reference to a context variable (`$user_message`): the rails judge these characters and
+    # these characters are what comes back
+    for mode in ("dialog", "general", "passthrough", "single_call"):
+        for m in (1, 2):
+            for vs in itertools.product(["ok", "block", "rewrite"], repeat=m * 2):
+                i += 1
+                c = _mk("v1", mode, m, 2, vs, "q%d" % i)
+                c["spec"]["ref_bot"] = True
+                yield dict(c, id=i)
     # completion-style calls generate(prompt=...): all verdict matrices, refusals and rail exceptions, with and without options
     for mode in ("dialog", "general", "passthrough"):
         for exc in (False, True):
